@@ -203,7 +203,15 @@ def _(E, m, a, c0): return BoxV(a[0])
 @exact('Box::new_uninit')
 def _(E, m, a, c0): return BoxV(None)
 @exact('std::boxed::box_assume_init_into_vec_unsafe')
-def _(E, m, a, c0): return Seq(a[0].cell.v.fields)
+def _(E, m, a, c0):
+    # vec![..] lowering: the array is written into MaybeUninit<[T; N]> (union field .1 -> ManuallyDrop .0 -> MaybeDangling .0)
+    v = a[0].cell.v
+    while isinstance(v, Tup):
+        inner = [f for f in v.fields if f is not None]
+        if len(inner) != 1: raise Missing('unexpected MaybeUninit layout in vec! lowering')
+        v = inner[0]
+    if not isinstance(v, Seq): raise Missing('vec! lowering: no array found')
+    return Seq(v.fields)
 @pattern(r'<Cow<.*> as Deref>::deref')
 def _(E, m, a, c0):
     c = E.deref(a[0])
